@@ -43,9 +43,11 @@ def r1_table(ctx):
             st = [e for e in p if e[0] == "store" and is_self_field(e[2], "state")]
             state = st[-1][3] if st else None
             sname = state[2] if state is not None and state[0] == "agg" else None
-            if r[0] == "agg" and r[2] == "None":
-                rec = decision_on(p, lambda t: t[0] == "discr" and call_is(t[1], "recover"))
-                if rec == 0:
+            if returns_none(b, p):
+                # `match self.recover(..) { None => return None, .. }` or `self.recover(..)?`
+                rec = decision_on(p, lambda t: t[0] == "discr" and call_is(t[1], "recover"))          # Option: None = 0
+                recq = decision_on(p, lambda t: t[0] == "discr" and call_is(t[1], "branch") and call_is(t[1][3][0], "recover"))  # ControlFlow: Break = 1
+                if rec == 0 or recq == 1:
                     ctx.ob("R4", "next:None[recover=None]", not st, "when recover() yields nothing the state is left untouched (so the iterator stays ended)", config=cfg)
                 else:
                     ctx.ob("R4", "next:None[only-whitespace]", sname == "Done", "reaching the end of input while looking for a key ends the iteration for good (state %s)" % sname, config=cfg)
@@ -100,7 +102,7 @@ def r1_table(ctx):
                 ctx.ob("R2", "next:Unquoted:html-only", html not in (None, 0), "Attr::Unquoted is produced only in HTML mode", config=cfg)
             else:
                 ctx.ob("R1", "next:row:%s" % (rv,), False, "unclassified return of next()", config=cfg)
-        ctx.floor("R1", "returning paths of IterState::next", rows, 20, config=cfg)
+        ctx.floor("R1", "returning paths of IterState::next", rows, 9, config=cfg)
         want = {"None", "double_q", "single_q", "key_only", "ExpectedValue", "ExpectedQuote", "UnquotedValue", "Duplicated", "Unquoted"}
         ctx.ob("R1", "next:kinds", kinds == want, "next() produces exactly the documented outcomes: missing %s extra %s" % (sorted(want - kinds), sorted(kinds - want)), config=cfg)
         # helpers
@@ -266,7 +268,19 @@ def r5_recovery(ctx):
                     continue
                 r = ret_of(p)
                 d = decision_on(p, lambda t: t[0] == "discr" and call_is(t[1], "find"))
-                if d == 1:
+                if d is None and call_is(r, "map") and call_is(r[3][0], "find"):
+                    # `iter.find(pred).map(|(e, _)| e)`: Some(index of the hit) / None, in one expression
+                    proj = False
+                    for a in r[3][1:]:
+                        cb = F.closure(a[1]) if a[0] == "closure" else None
+                        if cb is not None:
+                            for p2 in sym.walk(cb):
+                                r2 = ret_of(p2)
+                                if r2 is not None and r2[0] == "pl" and r2[1][0] == "arg" and fields_of(r2)[:1] == ("0",):
+                                    proj = True
+                    ctx.ob("R5", "skip_value:found", proj, "resume at the whitespace that ends the value (find(..).map(|(e, _)| e))", config=cfg)
+                    ctx.ob("R5", "skip_value:end", proj, "value runs to the end of input: nothing more to iterate", config=cfg)
+                elif d == 1:
                     ctx.ob("R5", "skip_value:found", r[0] == "agg" and r[2] == "Some" and found_index(r[3][0]) is not None, "resume at the whitespace that ends the value", config=cfg)
                 else:
                     ctx.ob("R5", "skip_value:end", r[0] == "agg" and r[2] == "None", "value runs to the end of input: nothing more to iterate", config=cfg)
@@ -276,7 +290,7 @@ def r5_recovery(ctx):
             for p in ctx.paths(n, max_paths=60000)[:200]:
                 rf, sl = scan_start(p)
                 if rf is not None:
-                    ctx.ob("R5", "next:scan", sl is not None and rf == sl and call_is(strip_wrappers(rf)[1] if strip_wrappers(rf)[0] == "pl" else ("x",), "recover"), "next() scans (offset..).zip(slice[offset..]) from the recovered offset", config=cfg)
+                    ctx.ob("R5", "next:scan", sl is not None and rf == sl and has_subterm(rf, lambda s: call_is(s, "recover")), "next() scans (offset..).zip(slice[offset..]) from the recovered offset", config=cfg)
                     break
 
 
